@@ -91,8 +91,14 @@ class UniAdapter:
         price = m.market_status.data.price
         sp = ref_sqrt_from_price(price, pool.token0.decimal, pool.token1.decimal, pool.is_token0_quote)
         total = Fraction(0)
+        # a position that another market holds as collateral is valued THERE (once); where the borrowing market is part of the world the question is
+        # decided by what that market actually holds, not by the position's own flag (a flag left behind by a refused hand-over must not make the
+        # position vanish from the valuation)
+        holders = getattr(self, "holders", None)
+        held = None if holders is None else {h for f in holders for h in f()}
         for k, p in m._positions.items():
-            if p.transferred and not include_transferred:
+            lent = p.transferred if held is None else k in held
+            if lent and not include_transferred:
                 continue
             total += self.position_value(k, p, sp, F(price))
         return total
